@@ -55,7 +55,10 @@ def write_cfg(path, spec, constants, invariants=(), properties=(), constraint=No
     if constants:
         lines.append("CONSTANTS")
         for k, v in constants.items():
-            lines.append("  %s = %s" % (k, tla_val(v)))
+            if isinstance(v, str) and v.startswith("<-"):
+                lines.append("  %s <- %s" % (k, v[2:].strip()))
+            else:
+                lines.append("  %s = %s" % (k, tla_val(v)))
     if invariants:
         lines.append("INVARIANTS " + " ".join(invariants))
     if properties:
@@ -83,6 +86,10 @@ def tla_val(v):
     raise ValueError(v)
 
 
+_META_SEQ = 0
+_META_LOCK = threading.Lock()
+
+
 class TlcResult:
     def __init__(self):
         self.ok = False
@@ -100,7 +107,11 @@ class TlcResult:
 def run_tlc(module, cfg, wd, workers=8, timeout=1800, simulate=None, depth=None, env=None,
             extra=(), heap="8g", coverage=False, dfs=False, seed=None):
     """Runs TLC on spec/<module>.tla with the given cfg file (path).  Returns TlcResult."""
-    meta = os.path.join(wd, "meta-%s-%d" % (module, int(time.time() * 1000) % 100000000))
+    global _META_SEQ
+    with _META_LOCK:
+        _META_SEQ += 1
+        seq = _META_SEQ
+    meta = os.path.join(wd, "meta-%s-%d-%d" % (module, os.getpid(), seq))
     cmd = ["timeout", str(timeout), "java", "-XX:+UseParallelGC", "-Xmx" + heap, "-Xss1g"]
     if dfs:
         cmd.append("-Dtlc2.tool.queue.IStateQueue=StateDeque")
@@ -283,8 +294,10 @@ def write_replay(prop, family, entry, inv, seed, extra=None):
     os.makedirs(REPLAYS, exist_ok=True)
     h = sched_hash([entry.get("cfg"), entry.get("steps"), inv])
     path = os.path.join(REPLAYS, "%s-%s.json" % (prop, h))
+    cfg = dict(entry.get("cfg") or {})
+    cfg.pop("random", None)
     obj = dict(property=prop, family=family, invariant=inv, seed=seed,
-               id=entry.get("id"), cfg=entry.get("cfg"), steps=entry.get("steps"))
+               id=entry.get("id"), cfg=cfg, steps=entry.get("steps"))
     if extra:
         obj.update(extra)
     with open(path, "w") as f:
